@@ -247,3 +247,17 @@ Example separating_values :
   length (comps (tr_pat (pattern_of oe_left))) = 2%nat /\ length (comps (tr_host oe_host)) = 2%nat /\
   length (comps (tr_pat i_pat)) = 2%nat /\ length (comps (tr_host i_host)) = 2%nat.
 Proof. vm_compute. repeat split; reflexivity. Qed.
+
+(** C04_own_comp_default / C04_own_bt_default (and the implicit twins: comp_bt_hyps above): on bromoethane + water written with
+    explicit centre hydrogens the premises hold for the centre and the full ITS, forwards; the identity separates *)
+Definition dcb_ok (core : bool) : bool :=
+  match rule_of core false dG dH with
+  | None => false
+  | Some (rc, l, r) =>
+      let Hh := tr_host (substrate false dG dH) in let Pp := tr_pat l in
+      forallb (fun p : N * mnode => 0 <=? m_hc (snd p)) (gnodes l) && C06_Model.gwfb Hh && C06_Model.gwfb Pp
+      && negb ((0 <? length (comps Pp))%nat && (length (comps Pp) <? length (comps Hh))%nat)
+      && id_separatingb Hh Pp
+  end.
+Example own_default_comp_bt_hyps : dcb_ok true = true /\ dcb_ok false = true.
+Proof. vm_compute. split; reflexivity. Qed.
